@@ -309,6 +309,16 @@ func genC04(g *G) {
 			}
 		}
 	}
+	// BTC: the node reports 0..3 confirmations for the best block it hands out (the tip moved on between
+	// GetBestBlockHash and GetBlockVerboseTx); heights around the boundary head - block == conf
+	for conf := int64(1); conf <= 3; conf++ {
+		for c := 0; c <= 3; c++ {
+			for d := int64(-2); d <= 2; d++ {
+				b := int64(5)
+				g.Emit("scan", "btc", itoa64(conf), "1", "1", itoa64(b), itoa64(b+conf+d)+"~"+itoa(c)+":n:s;"+itoa64(b+conf+d+1)+"~"+itoa(c)+":n:s")
+			}
+		}
+	}
 	// retry guards: exhaustive grid
 	for conf := int64(0); conf <= 4; conf++ {
 		for h := int64(0); h <= 9; h++ {
@@ -434,6 +444,9 @@ func genC04(g *G) {
 				head += int64(g.Intn(int(k) + 2))
 			}
 			hs := itoa64(head)
+			if kind == "btc" && g.Intn(3) == 0 {
+				hs += "~" + itoa(g.Intn(4))
+			}
 			if g.Intn(12) == 0 {
 				hs = g.Pick([]string{"E", "F"})
 			}
